@@ -134,15 +134,30 @@ def xml_for(root, ns=None, doctype=None):
     if ":" in root:
         p, n = root.split(":", 1)
         attrs = ' xmlns:%s="%s"' % (p, NS_DECL.get(p, "urn:x"))
-        local = NS_DECL.get(p, "urn:x") + ":" + n
+        local = NS_DECL.get(p, "urn:x") + "|" + n
     elif ns is not None:
         attrs = ' xmlns="%s"' % ns
-        local = ns + ":" + root
+        local = ns + "|" + root
     head = '<?xml version="1.0"?>'
     if doctype is not None:
         pub, sys_ = doctype
         head += '<!DOCTYPE %s %s>' % (root, ('PUBLIC "%s" "%s"' % (pub, sys_)) if pub is not None else ('SYSTEM "%s"' % sys_))
     return head + "<%s%s/>" % (root, attrs), local
+
+
+# where several languages share an identifier the FIRST REGISTERED one is chosen, consistently: the choice that the
+# released tables make is pinned here (same list as LangSelectCheck.pinned_shared_identifiers), so that a reordering
+# of the main table shows up as a concrete document that is now read as another language
+PINNED_CHOICE = {("system-id", "http://www.microsoft.com/"): 2401, ("root", "wml"): 1101, ("root", "channel"): 1203,
+                 ("root", "SyncML"): 2201, ("root", "DevInf"): 2202, ("root", "MetInf"): 2203, ("root", "WV-CSP-Message"): 2301,
+                 ("ns-root", "syncml:devinf"): 2202}
+
+
+def pinned(tj, route, value, want):
+    k = PINNED_CHOICE.get((route, value))
+    if k is None:
+        return want
+    return first(l for l in tj["langs"] if l["id"] == k) or want
 
 
 def xml_cases(tj, rng):
@@ -170,12 +185,12 @@ def xml_cases(tj, rng):
             xml, local = xml_for(root, doctype=(l["pub_text"], l["dtd"]))
             add("xml-pubid-anon", l, xml, local, l["pub_text"], l["dtd"], l, anon=1)
         if l["dtd"] is not None:
-            want = first(x for x in langs if x["dtd"] == l["dtd"])
+            want = pinned(tj, "system-id", l["dtd"], first(x for x in langs if x["dtd"] == l["dtd"]))
             xml, local = xml_for(root, doctype=(None, l["dtd"]))
             add("xml-sysid", l, xml, local, None, l["dtd"], want)
             xml, local = xml_for(o["root"], doctype=("-//NO//SUCH//EN", l["dtd"]))   # unknown public id, system id beats the root
             add("xml-sysid-precedence", l, xml, local, "-//NO//SUCH//EN", l["dtd"], want)
-        want = first(x for x in langs if x["root"] == root)
+        want = pinned(tj, "root", root, first(x for x in langs if x["root"] == root))
         xml, local = xml_for(root)
         add("xml-root", l, xml, local, None, None, want, key=("xml-root:" + root) if ":" in root else None)
         xml, local = xml_for(root, doctype=("-//NO//SUCH//EN", "no-such.dtd"))
@@ -184,6 +199,7 @@ def xml_cases(tj, rng):
         if ns:
             ns0 = ns[0][0]
             want = first(x for x in langs if (rows(tj, x, "ns") or [[None]])[0][0] is not None and rows(tj, x, "ns")[0][0].lower() == ns0.lower())
+            want = pinned(tj, "ns-root", ns0.lower(), want)
             xml, local = xml_for(root, ns=ns0)
             add("xml-nsroot", l, xml, local, None, None, want)
             xml, local = xml_for(root, ns=ns0.swapcase())
@@ -192,7 +208,7 @@ def xml_cases(tj, rng):
     for l in langs:
         if l["root"] == "MetInf":
             xml, local = xml_for("MetInf", ns="syncml:metinf")
-            add("xml-nsroot-no-ns-table", l, xml, local, None, None, first(x for x in langs if x["root"] == "MetInf"), key="xml-nsroot:syncml:metinf:MetInf")
+            add("xml-nsroot-no-ns-table", l, xml, local, None, None, pinned(tj, "root", "MetInf", first(x for x in langs if x["root"] == "MetInf")), key="xml-nsroot:syncml:metinf|MetInf")
     for xml, local in (xml_for("nosuchroot"), xml_for("nosuchroot", doctype=("-//NO//SUCH//EN", "no-such.dtd")), xml_for("nosuch", ns="urn:none"), xml_for("WML"), xml_for("Si")):
         cases.append(dict(line="x 0 0 %s" % xml.encode().hex(), model_line="X %s %s %s 0 0" % (("~", "~") if "DOCTYPE" not in xml else (hx("-//NO//SUCH//EN"), hx("no-such.dtd")), ) + (hx(local),) if False else
                           "X %s %s %s 0 0" % (hx("-//NO//SUCH//EN") if "DOCTYPE" in xml else "~", hx("no-such.dtd") if "DOCTYPE" in xml else "~", hx(local)),
